@@ -275,7 +275,9 @@ def shapes(tier, seed):
     # J: decorated registers (`ix+`, `+ix`, `ix++`, `@sp`) after a numeric-like alternative: the numeric one declines them
     for name, od in (('address', {'type': 'address', 'bytecode': code('j_n', 4), 'argument': arg(16, True)}),
                      ('numeric', {'type': 'numeric', 'bytecode': code('j_n', 4), 'argument': arg(16, True)}),
-                     ('relative', {'type': 'relative_address', 'bytecode': code('j_n', 4), 'argument': arg(16, True)})):
+                     ('relative', {'type': 'relative_address', 'bytecode': code('j_n', 4), 'argument': arg(16, True)}),
+                     ('numeric-bytecode', {'type': 'numeric_bytecode', 'bytecode': {'size': 4, 'min': 0, 'max': 15}}),
+                     ('numeric-enumeration', {'type': 'numeric_enumeration', 'bytecode': {'size': 4, 'value_dict': {0: 1, 1: 2}}})):
         osetsJ = {'regs': regs_set(), 'num': {'operand_values': {'n': od}},
                   'post': {'operand_values': {'p': {'type': 'register', 'register': 'ix', 'bytecode': code('j_post', 4),
                                                     'decorator': {'type': 'plus'}}}},
@@ -295,9 +297,35 @@ def shapes(tier, seed):
             ok(f'J:decorated-register-after-{name}:{text.split(", ")[1]}', cfgJ(),
                {'mnemonic': 'ld', 'variant': {'post': 1, 'pre': 2, 'pp': 3}[st_], 'text': text,
                 'uses': [{'set': 'regs', 'id': text.split()[1].rstrip(',')}, {'set': st_, 'id': oid}]})
-        if name != 'relative':
+        if name == 'relative':
+            # the whole operand text has to be the expression: text after it is not ignored
+            for k, text in enumerate(('ld ra, 5 @ 3', 'ld ra, 7 ! zzz', 'ld rb, 2 ?? junk', 'ld ra, 5 }')):
+                rej(f'J:relative-operand-with-trailing-text:{k}', cfgJ(), text)
+        if name in ('address', 'numeric'):
             ok(f'J:number-before-decorated-registers:{name}', cfgJ(v1=(0, 0x7000)),
                {'mnemonic': 'ld', 'variant': 0, 'text': 'ld ra, v1', 'uses': [{'set': 'regs', 'id': 'ra'}, {'set': 'num', 'id': 'n', 'val': V('v1')}]})
+    osetsK = {'rc': {'operand_values': {'r': {'type': 'relative_address', 'use_curly_braces': True, 'argument': arg(8, True)}}}}
+    insK = {'jb': {'bytecode': code('op_a', 8), 'operands': {'count': 1, 'operand_sets': {'list': ['rc']}}}}
+    for k, text in enumerate(('jb {5} junk', 'jb {5}+100', 'jb {5} ! 3', 'jb {5', 'jb x{5}')):
+        rej(f'K:braced-relative-operand-with-other-text:{k}', isa(operand_sets=osetsK, instructions=insK), text)
+    # L: a variant that states `count: 0` takes no operands: written operands go to a later variant or are refused
+    insL = {'ret': {'bytecode': code('op_a', 8), 'operands': {'count': 0}, 'variants': [
+                {'bytecode': code('op_b', 8), 'operands': {'count': 1, 'operand_sets': {'list': ['imm8']}}}]},
+            'rts': {'bytecode': code('op_c', 8), 'operands': {'count': 1, 'operand_sets': {'list': ['imm8']}}, 'variants': [
+                {'bytecode': code('op_d', 8), 'operands': {'count': 0}}]},
+            'hlt': {'bytecode': code('op_e', 8), 'operands': {'count': 0}}}
+    macL = {'leave': [{'operands': {'count': 0}, 'instructions': ['hlt']},
+                      {'operands': {'count': 1, 'operand_sets': {'list': ['imm8']}}, 'instructions': ['nop', 'ret @ARG(0)']}]}
+    cfgL = lambda **cs: isa(operand_sets=osets, instructions=insL, macros=macL, consts=cs)  # noqa
+    UL = lambda v: [{'set': 'imm8', 'id': 'n', 'val': v}]  # noqa
+    ok('L:count-zero-variant-first:with-operand', cfgL(v1=vrange(8)), {'mnemonic': 'ret', 'variant': 1, 'text': 'ret v1', 'uses': UL(V('v1'))},
+       expect=['ok', 'rejected'])
+    ok('L:count-zero-variant-first:without-operand', cfgL(), {'mnemonic': 'ret', 'variant': 0, 'text': 'ret', 'uses': []})
+    ok('L:count-zero-variant-second:with-operand', cfgL(v1=vrange(8)), {'mnemonic': 'rts', 'variant': 0, 'text': 'rts v1', 'uses': UL(V('v1'))},
+       expect=['ok', 'rejected'])
+    ok('L:count-zero-variant-second:without-operand', cfgL(), {'mnemonic': 'rts', 'variant': 1, 'text': 'rts', 'uses': []})
+    for k, text in enumerate(('hlt 5', 'hlt ra', 'ret ra', 'ret 1, 2', 'leave ra', 'leave 1, 2', 'hlt ,')):
+        rej(f'L:count-zero-with-operands:{k}', cfgL(), text)
     rej('D:undeclared-register-form', cfgD2(), 't rb')
     rej('D:indirect-of-unlisted-register', cfgD2(), 't [ix]')
     rej('D:register-in-brackets-as-number', cfgD2(), 't [ra]')
